@@ -73,6 +73,16 @@ Definition crop_mp4_file (hs : list trak_h) (ms rest : N)
     Ok (et, ti_ts ref, r)
   end.
 
+(* ... followed by writeUptoMdat: the duration arithmetic on mvhd / tkhd / elst (write_upto_mdat_durs of C10Model.v: mvhd
+   timescale, one (tkhd duration, mdhd duration, edit lists) per track); a refusal there ends cropMP4 before anything of the
+   mdat is written.  Result: (endTime, endTimescale, cropToTime's result, (new mvhd duration, new track headers)) *)
+Definition crop_mp4_all (hs : list trak_h) (mvTimescale : N) (tks : list hdr_trak) (ms rest : N)
+  : res (N * N * (list tables * list (N * N) * list N * N) * (N * list hdr_trak)) :=
+  do r <- crop_mp4_file hs ms rest;
+  let '(et, ets, x) := r in
+  do d <- write_upto_mdat_durs et ets mvTimescale tks;
+  Ok (et, ets, x, d).
+
 (* the whole output: the re-encoded non-mdat boxes are `pre` (their ENCODING is not modelled, their length is), followed by
    what writeMdat writes *)
 Definition crop_mp4_output (file : list N) (zeof : bool) (m : C08Model.mdat) (pre : list N) (ranges : list (N * N))
